@@ -15,8 +15,10 @@ Observation points (all from the harness process, nothing in /repo is touched):
   * an instance-level wrapper around `rollout_buffer.compute_returns_and_advantage`: the `last_values` / `dones` it
     is really called with;
   * a callback that copies `model.rollout_buffer` and `_last_obs` / `_last_episode_starts` at `on_rollout_end`, and recomputes — with the policy of that moment,
-    independently of the collection code — `evaluate_actions(obs, action)` for every slot and
-    `predict_values` for every observation and terminal observation the environment delivered.
+    independently of the collection code — `evaluate_actions(obs, action)` for every slot, and the critic value of
+    every observation and terminal observation the environment delivered through the path training uses
+    (`evaluate_actions(obs, ·)[0]`, the same network `forward()` evaluates), never through `predict_values`;
+    `predict_values` is evaluated on the same inputs only to require that it agrees.
 
 Two detectors:
   * oracle: the property sentence, slot by slot, against the recorder / the sub-environments' logs and the
@@ -42,7 +44,8 @@ RULE = (
     "ending exactly on the rollout boundary), observation kinds float-bit Box (1-D, 2-D), MultiBinary, MultiDiscrete, "
     "Discrete, Dict; action kinds Box (asymmetric, symmetric, bounds at which float32 unscaling overshoots), Discrete, MultiDiscrete, MultiBinary; with/without "
     "VecNormalize (obs and/or reward), with/without gSDE (with/without squashed output, resampling every k steps); "
-    "gamma in {0.5,0.75,0.9,0.99,1}; 1-3 learn() calls of 1-3 rollouts each, with/without reset_num_timesteps. "
+    "default (parameterless) or custom Linear+Tanh features extractor, shared or one differently initialised copy each "
+    "for actor and critic; gamma in {0.5,0.75,0.9,0.99,1}; 1-3 learn() calls of 1-3 rollouts each, with/without reset_num_timesteps. "
     "non-trivial = the run contains a truncation-only episode end, a termination, and a terminated-and-truncated end; "
     "distinct = distinct canonical case"
 )
@@ -188,6 +191,7 @@ def gen_case(rng, widen=False):
             "gamma": rng.choice([0.99, 0.5]),
         }
     gamma = rng.choice([0.5, 0.9, 1.0]) if widen else rng.choice(GAMMAS)
+    fe = {"share": rng.chance(0.35)} if rng.chance(0.5) else None
     # learn() calls
     n_learn = rng.weighted([(1, 3), (2, 4), (3, 2)])
     max_roll = max(1, MAX_ENV_STEPS // n_steps)
@@ -222,6 +226,9 @@ def gen_case(rng, widen=False):
         "algo": algo, "n_envs": n_envs, "n_steps": n_steps, "obs_kind": obs_kind, "act_kind": act_kind,
         "sde": sde, "vecnorm": vecnorm, "gamma": gamma, "gae_lambda": rng.choice([0.95, 1.0, 0.5]),
         "lr": rng.choice([3e-4, 3e-3]), "learns": learns, "scripts": scripts, "seed": rng.randint(0, 2**31 - 1),
+        # features extractor WITH parameters (default: parameterless Flatten / CombinedExtractor), shared between actor
+        # and critic or one differently initialised copy each
+        "fe": fe,
     }
 
 
@@ -252,8 +259,8 @@ def shrink_candidates(case):
         c = dict(case)
         c["n_steps"] = case["n_steps"] - 1
         yield c
-    for key in ("vecnorm", "sde"):
-        if case[key] is not None:
+    for key in ("vecnorm", "sde", "fe"):
+        if case.get(key) is not None:
             c = dict(case)
             c[key] = None
             yield c
@@ -358,6 +365,32 @@ def run_case(case):
 
     rec = Recorder(venv)
     pk = dict(net_arch=[4])
+    if case.get("fe") is not None:
+        from stable_baselines3.common.preprocessing import get_flattened_obs_dim
+        from stable_baselines3.common.torch_layers import BaseFeaturesExtractor
+
+        class TinyExtractor(BaseFeaturesExtractor):
+            """flatten (every key of) the preprocessed observation -> Linear -> Tanh: an extractor with parameters"""
+
+            def __init__(self, observation_space, features_dim=6):
+                super().__init__(observation_space, features_dim)
+                if isinstance(observation_space, spaces.Dict):
+                    self.keys = sorted(observation_space.spaces)
+                    d = sum(get_flattened_obs_dim(observation_space.spaces[k]) for k in self.keys)
+                else:
+                    self.keys = None
+                    d = get_flattened_obs_dim(observation_space)
+                self.net = th.nn.Sequential(th.nn.Linear(d, features_dim), th.nn.Tanh())
+
+            def forward(self, obs):
+                if self.keys is not None:
+                    x = th.cat([obs[k].float().flatten(start_dim=1) for k in self.keys], dim=1)
+                else:
+                    x = obs.float().flatten(start_dim=1)
+                return self.net(x)
+
+        pk["features_extractor_class"] = TinyExtractor
+        pk["share_features_extractor"] = bool(case["fe"]["share"])
     use_sde, freq = False, -1
     if case["sde"] is not None:
         use_sde, freq = True, case["sde"]["freq"]
@@ -400,9 +433,30 @@ def run_case(case):
     rb.compute_returns_and_advantage = gae_spy
     is_discrete = isinstance(model.action_space, spaces.Discrete)
 
-    def pvalues(obs):
+    def predicted(obs):
+        """policy.predict_values — what collect_rollouts itself calls; NOT the oracle's reference"""
         with th.no_grad():
             return policy.predict_values(obs_as_tensor(obs, model.device)).cpu().numpy().reshape(-1).astype(np.float64)
+
+    def pvalues(obs):
+        """V(obs) through the critic path that forward() uses and train() optimises: evaluate_actions(obs, a)[0]
+        (the value does not depend on the action; a fixed valid action is supplied; no random numbers consumed)"""
+        ot = obs_as_tensor(obs, model.device)
+        b = next(iter(ot.values())).shape[0] if isinstance(ot, dict) else ot.shape[0]
+        if is_discrete:
+            a = th.zeros(b, dtype=th.long)
+        else:
+            a = th.zeros((b, *model.action_space.shape), dtype=th.float32)
+        with th.no_grad():
+            v, _, _ = policy.evaluate_actions(ot, a)
+        return v.cpu().numpy().reshape(-1).astype(np.float64)
+
+    fe_distinct = None
+    if case.get("fe") is not None and not case["fe"]["share"]:
+        pa = [p.detach().numpy() for p in policy.pi_features_extractor.parameters()]
+        pc = [p.detach().numpy() for p in policy.vf_features_extractor.parameters()]
+        fe_distinct = bool(policy.pi_features_extractor is not policy.vf_features_extractor
+                           and any(not np.array_equal(x, y) for x, y in zip(pa, pc)))
 
     class Cb(BaseCallback):
         def __init__(self):
@@ -450,15 +504,18 @@ def run_case(case):
             r["ev_logp"] = ev_lp.cpu().numpy().astype(np.float64).reshape(shape)
             # critic on everything the environment delivered: the state in front of the rollout, every step output,
             # every terminal observation
-            r["pv"] = {}
+            r["pv"] = {}       # critic path (reference)
+            r["pred"] = {}     # policy.predict_values on the same inputs (must agree)
             for i in range(max(ev0 - 1, 0), len(rec.events)):
                 ev = rec.events[i]
                 r["pv"][i] = pvalues(ev["obs"])
+                r["pred"][i] = predicted(ev["obs"])
                 if ev["k"] == "step":
                     for e, tobs in enumerate(ev["term"]):
                         if tobs is not None:
                             one = {k: v[None] for k, v in tobs.items()} if isinstance(tobs, dict) else np.asarray(tobs)[None]
                             r["pv"][(i, e)] = float(pvalues(one)[0])
+                            r["pred"][(i, e)] = float(predicted(one)[0])
             self.rollouts.append(r)
 
     cb = Cb()
@@ -474,7 +531,8 @@ def run_case(case):
     return {"events": rec.events, "fw": fw_log, "rollouts": cb.rollouts, "learn_marks": learn_marks, "logs": logs,
             "is_box": isinstance(model.action_space, spaces.Box), "squash": bool(policy.squash_output), "low": low,
             "high": high, "gamma": float(model.gamma), "vn": vn is not None,
-            "norm_obs": bool(vn is not None and vn.norm_obs), "norm_reward": bool(vn is not None and vn.norm_reward)}
+            "norm_obs": bool(vn is not None and vn.norm_obs), "norm_reward": bool(vn is not None and vn.norm_reward),
+            "fe_distinct": fe_distinct}
 
 
 # ------------------------------------------------------------------------------------------------
@@ -656,7 +714,8 @@ def oracle(ctx, case, r, tags, truth):
                         sub = "missing_bootstrap" if br == rr else "wrong_amount"
                         rep.violation("reward of a time-limit truncated step is not r + gamma * V(terminal observation)",
                                       case, dict(sig0, kind="slot_reward", sub=sub),
-                                      dict(loc, got=br, reward=rr, gamma=gamma, v_terminal=vt, expected=exp))
+                                      dict(loc, got=br, reward=rr, gamma=gamma, v_terminal=vt, expected=exp,
+                                           predict_values_terminal=ro["pred"].get((i, e))))
                         return False
                 elif br != rr:
                     sub = "terminated_bootstrapped" if tr["term"] else "running_changed"
@@ -685,11 +744,24 @@ def oracle(ctx, case, r, tags, truth):
             if not rel_ok(float(buf["advantages"][T - 1][e]), exp_adv, 1e-3):
                 return bad("advantage of the last step is not r + gamma * V(successor observation) * (1 - done) - V",
                            "last_advantage", got=float(buf["advantages"][T - 1][e]), expected=exp_adv, **loc)
+            if not rel_ok(float(ro["pred"][ro["ev1"] - 1][e]), float(pv_last[e]), VTOL):
+                return bad("predict_values differs from the value the policy's forward / evaluate_actions assigns "
+                           "(successor observation of the rollout)", "predict_values_inconsistent",
+                           predict_values=float(ro["pred"][ro["ev1"] - 1][e]), critic=float(pv_last[e]), **loc)
             # (8) state left for the next rollout / learn() call
             if ro["last_obs"] is not None and not _same(_slice(ro["last_obs"], e), _slice(last["obs"], e)):
                 return bad("_last_obs after the rollout is not the observation returned by its last step", "carry_obs", **loc)
             if ro["last_starts"] is not None and float(ro["last_starts"][e]) != d:
                 return bad("_last_episode_starts after the rollout is not the dones of its last step", "carry_starts", **loc)
+        # (9) predict_values (used for the time-limit bootstrap and the last values) is the critic of forward() /
+        #     evaluate_actions() on everything the environment delivered during this rollout
+        for key, pred in ro["pred"].items():
+            ref = ro["pv"][key]
+            ok = rel_ok(float(pred), float(ref), VTOL) if isinstance(key, tuple) else \
+                all(rel_ok(float(a), float(b), VTOL) for a, b in zip(pred, ref))
+            if not ok:
+                return bad("predict_values differs from the value the policy's forward / evaluate_actions assigns",
+                           "predict_values_inconsistent", rollout=k, terminal=isinstance(key, tuple))
     return True
 
 
@@ -901,6 +973,10 @@ def check_cases(ctx, cases):
                                 (("obs" if case["vecnorm"]["norm_obs"] else "") +
                                  ("+rew" if case["vecnorm"]["norm_reward"] else "")) or "wrapper-only"))
         rep.count("sde:" + ("none" if case["sde"] is None else ("squash" if case["sde"]["squash"] else "plain")))
+        rep.count("features_extractor:" + ("default" if case.get("fe") is None else
+                                           ("custom-shared" if case["fe"]["share"] else "custom-separate")))
+        if r is not None and r.get("fe_distinct") is False:
+            rep.count("separate_extractors_not_distinct")
         rep.count("learn_calls=%d" % len(case["learns"]))
         if r is None:
             rep.case(case, None)
